@@ -38,6 +38,7 @@ T == INSTANCE Timer
 L == INSTANCE Lcd
 J == INSTANCE Joypad
 D == INSTANCE Dma
+S == INSTANCE Serial
 
 PlainRegs == {64, 66, 67, 71, 72, 73, 74, 75}    \* LCDC SCY SCX BGP OBP0 OBP1 WY WX (offsets in page 0xFF)
 
@@ -93,8 +94,8 @@ StatWriteRequest(m) == IF L!ReadLY(m.p) = m.p.lyc /\ Bit(m.p.en, 6) = 1 THEN Rai
 IoWrite(m, a, v) ==
   LET r == a % 256 IN
   CASE r = 0  -> W([m EXCEPT !.js = J!Select(m.js, v)], << >>)
-    [] r = 1  -> W([m EXCEPT !.sb = v], << >>)
-    [] r = 2  -> W([m EXCEPT !.sc = v], IF Bit(v, 7) = 1 THEN <<m.sb>> ELSE << >>)
+    [] r = 1  -> W([m EXCEPT !.sb = S!WriteSB([sb |-> m.sb, sc |-> m.sc], v).sp.sb], << >>)
+    [] r = 2  -> (LET x == S!WriteSC([sb |-> m.sb, sc |-> m.sc], v) IN W([m EXCEPT !.sc = x.sp.sc], x.out))
     [] r = 4  -> W([m EXCEPT !.t = [m.t EXCEPT !.div = 0]], << >>)          \* Dev_NoDivGlitch
     [] r = 5  -> W([m EXCEPT !.t = T!WriteTIMA(m.t, v)], << >>)
     [] r = 6  -> W([m EXCEPT !.t = T!WriteTMA(m.t, v)], << >>)
